@@ -475,6 +475,23 @@ func flatBoard(r *RNG, size int) *tak.Position {
 	return fromCells(size, cells, 2+r.Intn(80), r.Chance(1, 2), r.Intn(3))
 }
 
+// wrapReserves takes a sampled position and replaces one side's (or both sides') reserve counters by a
+// pair stones, capstones > 0 with stones+capstones = 256: nothing in reserve is exhausted, but the byte sum
+// `stones+caps` is 0 (defect C02-reserve-wrap: GameOver tested that sum).
+func wrapReserves(r *RNG, p *tak.Position) *tak.Position {
+	raw := p.VerifRaw()
+	side := r.Intn(3)
+	if side != 1 {
+		raw.WS = byte(1 + r.Intn(255))
+		raw.WC = byte(256 - int(raw.WS))
+	}
+	if side != 0 {
+		raw.BS = byte(1 + r.Intn(255))
+		raw.BC = byte(256 - int(raw.BS))
+	}
+	return tak.VerifFromRaw(raw)
+}
+
 func genC02(c *Ctx) {
 	exhaustive3(c)
 	if c.Thorough() {
@@ -497,13 +514,17 @@ func genC02(c *Ctx) {
 			p = randomPosition(c.R)
 			c.Count("src.random")
 		}
+		if c.R.Chance(1, 40) {
+			p = wrapReserves(c.R, p)
+			c.Count("src.+wrapped-reserves")
+		}
 		classifyPos(c, p)
 		emitC02(c, p, c.R.Chance(1, 4))
 	}
 }
 
 func genC03(c *Ctx) {
-	n := c.Scale(6000, 600000)
+	n := c.Scale(4000, 200000)
 	for k := 0; k < n; k++ {
 		p := randomPosition(c.R)
 		classifyPos(c, p)
